@@ -283,7 +283,7 @@ _AHASH = [
 ]
 PROPS["C17"]["kani"] += _AHASH
 PROPS["C10"]["kani"] += _AHASH
-PROPS["C09"]["mir"].append(ob("leaf_packing", "ob_tree", "leaf_packing", kwargs={"N": 3}))  # N=4: 16 min, solver unknown (nonlinear)
+PROPS["C09"]["mir"].append(ob("leaf_packing", "ob_tree", "leaf_packing", kwargs={"N": 2}, thorough_kwargs={"N": 3}))  # N=3: 40-120 s; N=4: 16 min, solver unknown (nonlinear)
 PROPS["C14"]["mir"].append(ob("close_active_order_c14", "ob_storage", "close_active_order"))
 PROPS["C15"]["mir"].append(ob("validate_rejects_short_index_c15", "ob_bptree", "validate_rejects_short_index"))
 PROPS["C03"]["mir"] += [ob("records_fold_step", "ob_load", "records_fold_step", kwargs={"L": 3}, thorough_kwargs={"L": 5}),
@@ -315,3 +315,11 @@ PROPS["C16"]["mir"] += [ob("writer_revalidates", "ob_tools", "writer_revalidates
 PROPS["C13"]["mir"].append(ob("dump_all_old_blobs", "ob_worker", "dump_all_old_blobs", kwargs={"B": 2}, thorough_kwargs={"B": 3}))
 PROPS["C12"]["mir"].append(ob("dump_all_old_blobs_c12", "ob_worker", "dump_all_old_blobs", kwargs={"B": 2}))
 PROPS["C01"]["mir"] += [ob("find_leaf_descent_c01", "ob_tree", "find_leaf_descent", kwargs={"D": 3}), ob("go_right_file_run_c01", "ob_tree", "go_right_file_run", kwargs={"R": 3})]
+PROPS["C02"]["mir"].append(ob("read_all_drops_marker", "ob_misc", "read_all_drops_marker"))
+PROPS["C15"]["mir"].append(ob("blobs_count_sum", "ob_misc", "blobs_count_sum"))
+PROPS["C07"]["mir"].append(ob("clean_file_rules", "ob_misc", "clean_file_rules"))
+PROPS["C12"]["mir"].append(ob("fsync_trigger_rules", "ob_misc", "fsync_trigger_rules"))
+PROPS["C06"]["mir"].append(ob("rawrecords_start_checks", "ob_misc", "rawrecords_start_checks"))
+PROPS["C17"]["mir"].append(ob("rawrecords_start_checks_c17", "ob_misc", "rawrecords_start_checks"))
+PROPS["C03"]["mir"].append(ob("blob_from_file_regenerates", "ob_misc", "blob_from_file_regenerates"))
+PROPS["C06"]["mir"].append(ob("blob_from_file_regenerates_c06", "ob_misc", "blob_from_file_regenerates"))
